@@ -140,6 +140,7 @@ type runState struct {
 	delStarted map[string]bool // owner's DeleteMapping(id) found the record
 	delOK      map[string]bool // ... and returned nil
 	updated    map[string]bool
+	delSucc    map[string]string // mapping -> description of the owner's DeleteMapping that reported success
 	staleRemoval bool
 	ctxs    []*tctx
 	start   int64
@@ -149,6 +150,9 @@ type tctx struct {
 	client   int64
 	actAs    int64           // cleanup: the client id the internal delete acts with (the record's own)
 	seenExp  map[string]bool // cleanup: mappings this run has read as expired
+	faulted  int             // storage failures injected into the current op
+	calls    int             // storage calls made by this caller so far
+	faultLog []int           // which of them were made to fail (1-based)
 	kind     string
 	rmID     string // mapping the current op removes (D: argument; C: the id it claimed)
 	lastRec  string
@@ -184,9 +188,14 @@ func (s *gstore) gate() bool { // returns true if this call must fail
 	s.r.arrive <- s.idx
 	<-s.r.resume[s.idx]
 	c := s.r.ctxs[s.idx]
+	c.calls++
 	if len(c.faults) > 0 {
 		f := c.faults[0]
 		c.faults = c.faults[1:]
+		if f {
+			c.faulted++
+			c.faultLog = append(c.faultLog, c.calls)
+		}
 		return f
 	}
 	return false
@@ -623,7 +632,7 @@ func runSched(c caseIn) *caseOut {
 	under := memory.New(ctx)
 	n := len(c.Threads)
 	r := &runState{arrive: make(chan int), resume: make([]chan struct{}, n), under: under, byID: map[string][]claimEv{}, writes: map[string][][2]int64{},
-		delStarted: map[string]bool{}, delOK: map[string]bool{}, updated: map[string]bool{}, start: time.Now().Unix()}
+		delStarted: map[string]bool{}, delOK: map[string]bool{}, updated: map[string]bool{}, delSucc: map[string]string{}, start: time.Now().Unix()}
 	var api storage.Storage = under
 	split := false
 	if c.Store == "hybrid" {
@@ -662,9 +671,19 @@ func runSched(c caseIn) *caseOut {
 			for _, op := range t.Ops {
 				tc.kind, tc.rmID, tc.lastRecOK, tc.lastRec = op.K, "", false, ""
 				tc.seenExp = map[string]bool{}
+				tc.faulted = 0
 				switch op.K {
 				case "C":
 					m, err := repo.CreateMapping(ctx, tc.client, op.Sub, op.Base, fmt.Sprintf("h%d", op.Tgt), op.Tgt)
+					if err != nil && coreerrors.IsCode(err, coreerrors.CodeAlreadyExists) {
+						// refused because the name is taken: the holder must not be a mapping whose owner's delete reported success
+						if cur, gerr := under.Get(repos.KeyPrefixHTTPDomainIndex + op.Sub + "." + op.Base); gerr == nil {
+							if curID, _ := cur.(string); r.delSucc[curID] != "" {
+								r.fail("deleted-name-not-reclaimable", fmt.Sprintf("%s returned success, yet CreateMapping(%q) by client %d is refused: the index still points at %s",
+									r.delSucc[curID], op.Sub+"."+op.Base, tc.client, curID))
+							}
+						}
+					}
 					if err != nil {
 						results[i] = append(results[i], []int{5, errCode(err)})
 					} else {
@@ -687,7 +706,30 @@ func runSched(c caseIn) *caseOut {
 						}
 					}
 					tc.rmID = id
+					existed := false // the mapping's create had completed, or a delete of it had begun, before this call
+					for _, cr := range r.created {
+						existed = existed || cr.id == id
+					}
+					existed = existed || r.delStarted[id]
+					nm, owner := "", int64(-1)
+					if evs := r.byID[id]; len(evs) > 0 {
+						nm, owner = evs[0].name, evs[0].client
+					}
 					err := repo.DeleteMapping(ctx, id, tc.client)
+					if existed && owner == tc.client {
+						what := fmt.Sprintf("DeleteMapping(%s) by its owner (client %d; caller %d, op #%d; storage calls of this caller made to fail so far: %v, %d of them in this call)", id, owner, i, len(results[i])+1, tc.faultLog, tc.faulted)
+						if err == nil {
+							// the property: once the owner's delete reports success the name is free
+							if cur, gerr := under.Get(repos.KeyPrefixHTTPDomainIndex + nm); gerr == nil {
+								if curID, _ := cur.(string); curID == id {
+									r.fail("deleted-still-indexed", fmt.Sprintf("%s returned success but the index of %q still points at %s", what, nm, id))
+								}
+							}
+							r.delSucc[id] = what
+						} else if tc.faulted == 0 && !coreerrors.IsCode(err, coreerrors.CodeConflict) {
+							r.fail("owner-delete-fails", fmt.Sprintf("%s fails although no storage call failed: %v", what, err))
+						}
+					}
 					if err != nil {
 						results[i] = append(results[i], []int{5, errCode(err)})
 					} else {
@@ -1148,8 +1190,10 @@ func (c *callCounter) Delete(key string) error {
 	return c.Storage.Delete(key)
 }
 
-// deleteIsGuarded: does DeleteMapping take a removal guard (SetNX) and re-read the index before deleting it?
-func deleteIsGuarded() bool {
+// deleteShape records the storage calls of one fault-free DeleteMapping and reports
+//   guarded:    a removal guard is claimed (SetNX) BEFORE the index is read, and the index is read before it is deleted;
+//   indexFirst: the index entry is deleted before the mapping record.
+func deleteShape() (guarded, indexFirst bool) {
 	ctx, cancel := context.WithCancel(context.Background())
 	defer cancel()
 	cc := &callCounter{Storage: memory.New(ctx)}
@@ -1158,17 +1202,22 @@ func deleteIsGuarded() bool {
 	must(err)
 	cc.calls = nil
 	must(repo.DeleteMapping(ctx, m.ID, 1))
-	want := []string{"Get " + repos.KeyPrefixHTTPDomainMapping + m.ID, "SetNX " + removalPrefix + m.ID, "Get " + repos.KeyPrefixHTTPDomainIndex + "probe.tunnox.net",
-		"Delete " + repos.KeyPrefixHTTPDomainIndex + "probe.tunnox.net", "Delete " + repos.KeyPrefixHTTPDomainMapping + m.ID, "Delete " + removalPrefix + m.ID}
-	if len(cc.calls) != len(want) {
-		return false
-	}
-	for i := range want {
-		if cc.calls[i] != want[i] {
-			return false
+	pos := func(call string) int {
+		for i, c := range cc.calls {
+			if c == call {
+				return i
+			}
 		}
+		return -1
 	}
-	return true
+	guard := pos("SetNX " + removalPrefix + m.ID)
+	getIdx := pos("Get " + repos.KeyPrefixHTTPDomainIndex + "probe.tunnox.net")
+	delIdx := pos("Delete " + repos.KeyPrefixHTTPDomainIndex + "probe.tunnox.net")
+	delRec := pos("Delete " + repos.KeyPrefixHTTPDomainMapping + m.ID)
+	release := pos("Delete " + removalPrefix + m.ID)
+	guarded = len(cc.calls) == 6 && guard >= 0 && guard < getIdx && getIdx < delIdx && release == 5 && delRec >= 0 && guard < delRec
+	indexFirst = delIdx >= 0 && delRec >= 0 && delIdx < delRec
+	return
 }
 
 // counterNeverExpires: after a CreateMapping on the default store, does the id counter key carry no deadline,
@@ -1218,7 +1267,9 @@ func gen() {
 	_, memCAS := mem.(storage.CASStore)
 	fmt.Printf("Definition memory_store_has_Incr_and_SetNX : bool := %v.\n", memCounter && memCAS)
 	fmt.Printf("Definition hybrid_incr_is_get_then_set : bool := %v.\n", hybridIncrIsGetThenSet())
-	fmt.Printf("Definition delete_is_guarded : bool := %v.\n", deleteIsGuarded())
+	guarded, indexFirst := deleteShape()
+	fmt.Printf("Definition delete_is_guarded : bool := %v.\n", guarded)
+	fmt.Printf("Definition delete_index_before_record : bool := %v.\n", indexFirst)
 	fmt.Printf("Definition counter_never_expires : bool := %v.\n", counterNeverExpires())
 	fmt.Printf("Definition counter_ttl_seconds : N := %d%%N.\n", int64(constants.DefaultDataTTL/time.Second))
 	cfg := hybrid.DefaultConfig()
